@@ -1167,18 +1167,30 @@ class Cache:
         if not self.statistics and update_column is None:
             # Fast path, no transaction necessary.
 
-            rows = self._sql(select, (db_key, raw, time.time())).fetchall()
+            missing = None
 
-            if not rows:
-                return default
+            while True:
+                rows = self._sql(
+                    select, (db_key, raw, time.time())
+                ).fetchall()
 
-            ((rowid, db_expire_time, db_tag, mode, filename, db_value),) = rows
+                if not rows:
+                    return default
 
-            try:
-                value = self._disk.fetch(mode, filename, db_value, read)
-            except IOError:
-                # Key was deleted before we could retrieve result.
-                return default
+                (
+                    (rowid, db_expire_time, db_tag, mode, filename, db_value),
+                ) = rows
+
+                try:
+                    value = self._disk.fetch(mode, filename, db_value, read)
+                    break
+                except IOError:
+                    # Key was deleted or its value replaced before we could
+                    # retrieve result. Look again unless the same file is
+                    # still referenced (then it is really gone).
+                    if filename == missing:
+                        return default
+                    missing = filename
 
         else:  # Slow path, transaction required.
             cache_hit = (
